@@ -13,6 +13,7 @@ import (
 	"os"
 	"os/exec"
 	"path/filepath"
+	"regexp"
 	"runtime"
 	"sort"
 	"strconv"
@@ -143,6 +144,9 @@ func cmdWorker(t *testing.T, args []string) int {
 	if err := json.Unmarshal(b, &job); err != nil {
 		fmt.Println("worker:", err)
 		return 2
+	}
+	if job.Profile == "conc" {
+		curPlanFile = job.Out + ".cur"
 	}
 	out := &WorkerOut{Kinds: map[string]int{}, Trans: map[string]int{}, FaultsConf: map[string]int{}, FaultsHit: map[string]int{}, Probes: map[string]int{}, Foreign: map[string]int{}, OwnSigs: map[string]int{}}
 	il := map[uint64]bool{}
@@ -293,6 +297,18 @@ func cmdReplay(t *testing.T, args []string) int {
 		fmt.Fprintln(os.Stderr, "replay:", err)
 		return 2
 	}
+	if plan.Violation != nil && strings.HasPrefix(plan.Violation.Sig, "fatal:") && os.Getenv("DSIM_IN_CHILD") == "" {
+		// the violation kills the process: execute in children (the crash needs the two accesses to really overlap)
+		os.Setenv("DSIM_IN_CHILD", "1")
+		for attempt := 0; attempt < 10; attempt++ {
+			if r := tryInFreshProcess(plan); r.Sig == plan.Violation.Sig {
+				fmt.Printf("VIOLATION property=%s replay=%s\n  oracle=crash sig=%s (attempt %d)\n  %s\n", plan.Prop, args[0], r.Sig, attempt+1, indent(plan.Violation.Detail))
+				return 1
+			}
+		}
+		fmt.Printf("NO-VIOLATION property=%s replay=%s (10 attempts)\n", plan.Prop, args[0])
+		return 0
+	}
 	opt := execOptFor(plan.Prop)
 	opt.Log = len(args) > 1
 	res := ExecuteChecked(t, plan, opt)
@@ -347,6 +363,9 @@ func tryInFreshProcess(c *Plan) tryResult {
 		return tryResult{Err: err.Error()}
 	}
 	out, _ := runChild(2*time.Minute, "try", f.Name())
+	if cv := crashViolation(out); cv != nil {
+		return tryResult{Sig: cv.Sig}
+	}
 	for _, l := range strings.Split(out, "\n") {
 		if strings.HasPrefix(l, "TRY ") {
 			var r tryResult
@@ -373,7 +392,7 @@ func cmdTry(t *testing.T, args []string) int {
 func minimise(t *testing.T, plan *Plan, sig string, budget int) *Plan {
 	best := plan.Clone()
 	execs := 0
-	fresh := strings.HasPrefix(sig, "data-race:")
+	fresh := strings.HasPrefix(sig, "data-race:") || strings.HasPrefix(sig, "fatal:")
 	if fresh && budget > 60 {
 		budget = 60
 	}
@@ -665,6 +684,14 @@ func cmdCheck(args []string) int {
 	il, nt, states := map[uint64]bool{}, map[uint64]bool{}, map[uint64]bool{}
 	for w := 0; w < workers; w++ {
 		if results[w].code != 0 {
+			if cv := crashViolation(results[w].out); cv != nil && cfg.Profile == "conc" {
+				if plan, err := LoadPlan(results[w].file + ".cur"); err == nil {
+					total.OwnCount++
+					total.OwnSigs[cv.Sig]++
+					total.Own = append(total.Own, FoundViolation{Index: w, Plan: plan, Violation: *cv})
+					continue
+				}
+			}
 			fmt.Printf("worker %d failed (exit %d):\n%s\n", w, results[w].code, tail(results[w].out, 3000))
 			return 2
 		}
@@ -762,7 +789,7 @@ func cmdCheck(args []string) int {
 			_ = SavePlan(final, fv.Plan)
 		}
 		out, code := runChild(5*time.Minute, "replay", final)
-		if code != 1 && fv.Violation.Oracle == "race-detector" {
+		if code != 1 && (fv.Violation.Oracle == "race-detector" || fv.Violation.Oracle == "crash") {
 			// a data race needs both accesses inside the race detector's bounded history: retry, then fall back to
 			// the unminimised plan; the race report itself stays the evidence
 			for attempt := 0; attempt < 4 && code != 1; attempt++ {
@@ -1035,8 +1062,15 @@ func firstDiff(a, b string) string {
 	return fmt.Sprintf("  length %d vs %d", len(al), len(bl))
 }
 
+// curPlanFile: where the worker leaves the plan it is about to execute, so that the driver can attribute a crash of
+// the whole process (Go's unrecoverable "concurrent map writes" and the like) to a plan.
+var curPlanFile string
+
 // ExecuteChecked = Execute + the oracles that live outside the bubble (race detector log for C18).
 func ExecuteChecked(t *testing.T, plan *Plan, opt ExecOpt) *RunResult {
+	if curPlanFile != "" {
+		_ = SavePlan(curPlanFile, plan)
+	}
 	res := Execute(t, plan, opt)
 	if plan.Profile == "conc" {
 		own, foreign := newRaceReports()
@@ -1061,4 +1095,20 @@ func ExecuteChecked(t *testing.T, plan *Plan, opt ExecOpt) *RunResult {
 		}
 	}
 	return res
+}
+
+var fatalRe = regexp.MustCompile(`(?m)^fatal error: (concurrent map[^\n]*)`)
+
+// crashViolation recognises a process-level crash caused by unsynchronised access in the library under test.
+func crashViolation(output string) *Violation {
+	m := fatalRe.FindStringSubmatch(output)
+	if m == nil || !strings.Contains(output, "github.com/openziti/storage/") {
+		return nil
+	}
+	excerpt := output[strings.Index(output, m[0]):]
+	if len(excerpt) > 3000 {
+		excerpt = excerpt[:3000] + "\n   ..."
+	}
+	return &Violation{Props: []string{"C18"}, Oracle: "crash", Sig: "fatal:" + strings.ReplaceAll(m[1], " ", "-"),
+		Detail: "the process died with an unrecoverable runtime error while steps of a race window ran concurrently:\n" + excerpt}
 }
